@@ -95,7 +95,8 @@ func init() {
 		if !ok {
 			return "errB"
 		}
-		return fmt.Sprintf("eq=%d ha=%d hb=%d same=%d", b2i(pa.Equal(pb)), pa.Hash(), pb.Hash(), b2i(absDump(pa) == absDump(pb) && pa.ToMove() == pb.ToMove()))
+		// property level only: Equal, hashes equal or not, boards identical or not (raw hash values are the `hash`/`mhash` ops)
+		return fmt.Sprintf("eq=%d hsame=%d same=%d", b2i(pa.Equal(pb)), b2i(pa.Hash() == pb.Hash()), b2i(absDump(pa) == absDump(pb) && pa.ToMove() == pb.ToMove()))
 	}
 	opTable["rebuild"] = func(s *Session, a []string) string {
 		p := decPos(a[0])
@@ -103,7 +104,7 @@ func init() {
 		if err != nil {
 			return "err"
 		}
-		return fmt.Sprintf("eq=%d h=%d hq=%d", b2i(p.Equal(q)), p.Hash(), q.Hash())
+		return fmt.Sprintf("eq=%d hsame=%d", b2i(p.Equal(q)), b2i(p.Hash() == q.Hash()))
 	}
 }
 
